@@ -162,27 +162,18 @@ Proof. destruct p as [x y z]. unfold eval_quadric, gq_fn; rs. ring. Qed.
 Lemma sq_expand_length (q : list R) : List.length (sq_expand RS q) = 10%nat.
 Proof. reflexivity. Qed.
 
-(* the sign rule of sq_to_gq: -1 when the SQ function is positive at (x, y, z) *)
-Definition sq_sign (q : list R) : R :=
-  if Rltb 0 (sq_fn q (mkV (nth 7 q 0) (nth 8 q 0) (nth 9 q 0))) then -1 else 1.
-
 Lemma sq_to_gq_fn (q : list R) p : List.length q = 10%nat ->
-  List.length (sq_to_gq RS q) = 10%nat /\ gq_fn (sq_to_gq RS q) p = sq_sign q * sq_fn q p.
-Proof.
-  intros H. unfold sq_to_gq, sq_sign. rewrite eval_quadric_gq, (sq_expand_fn q _ H). rs.
-  destruct (Rltb 0 _).
-  - split; [rewrite map_length; reflexivity|]. rewrite gq_fn_opp by reflexivity. rewrite (sq_expand_fn q p H). ring.
-  - split; [reflexivity|]. rewrite (sq_expand_fn q p H). ring.
-Qed.
+  List.length (sq_to_gq RS q) = 10%nat /\ gq_fn (sq_to_gq RS q) p = sq_fn q p.
+Proof. intros H. unfold sq_to_gq. split; [reflexivity | apply sq_expand_fn, H]. Qed.
 
-(* untransformed and transformed SQ: a QUAD whose value is sq_sign * the SQ
-   function, at the point itself resp. at the moved point *)
+(* untransformed and transformed SQ: a QUAD whose value is the SQ function with
+   the coefficients as given, at the point itself resp. at the moved point *)
 Theorem frame_transform_sq : forall (q : list R) (o : R3) (b : M3 R) pt u nap (p' : R3),
   List.length q = 10%nat -> rows_orthonormal b ->
   let s := mkMS KSQ pt u q nap in
-  (exists c0, convert RS s = Ok [(c0, 1%Z)] /\ t4val c0 p' = sq_sign q * msense s p') /\
+  (exists c0, convert RS s = Ok [(c0, 1%Z)] /\ t4val c0 p' = msense s p') /\
   (exists c, tr_convert RS (vlist o ++ mlist b) s = Ok [(c, 1%Z)] /\
-             t4val c (to_main o b p') = sq_sign q * msense s p').
+             t4val c (to_main o b p') = msense s p').
 Proof.
   intros q o b pt u nap p' Hq Hb s. split.
   - exists (plain QUAD (sq_to_gq RS q)). split.
